@@ -49,6 +49,10 @@ OBLIGATIONS = [
     "SkVerif.C11.refit_forgets_history",
     "SkVerif.C11.naive_history_eq_fresh",
     "SkVerif.C11.trend_history_eq_fresh",
+    "SkVerif.C11.es_forwards_every_option",
+    "SkVerif.C11.ets_forwards_every_option",
+    "SkVerif.C11.theta_wraps_ses_partial",
+    "SkVerif.C11.theta_zero_level_witness",
 ]
 TRUSTED = ["hand-written object-state model SkVerif/Model/History.lean (which attributes fit overwrites, which survive set_params / refit)",
            "hand-written models SkVerif/Model/Naive.lean (naive.py + _BaseWindowForecaster paths of _sktime.py) and SkVerif/Model/Trend.lean "
@@ -67,7 +71,7 @@ RULE = ("fixed-order small scope: every (strategy, n<=14, sp<=4, window_length i
         "random subsets) x (without / with NaN), all non-empty subsets of {-3..9} for 4 configurations (quick: seed-rotated 1/12 resp. 1/32 slice); "
         "structured random larger cases (n<60, sp<=12); malformed stream; trend values for degree 0..4, design matrices degree 0..5; "
         "object history (about 1/3 of the naive and 1/2 of the trend/design cases: fit on other data with other parameters, predict, set_params, fit, predict; compared with the textbook value AND a fresh object), second predict and caller-series snapshot on every naive/trend case; "
-        "5 statsmodels adapters + Theta vs direct statsmodels calls. distinct by driver line; non-trivial = a forecast with at least one finite value")
+        "statsmodels-backed forecasters over the option product (ExponentialSmoothing: 5 trend spellings x damped x 5 seasonal spellings x initialisation x sp, Box-Cox, known initial states; AutoETS: error x trend x damped x seasonal x initialisation, maxiter; Theta: initial_level x sp): recorded constructor/fit keyword arguments vs the parameters of the forecaster, forecasts vs the statsmodels model built directly with the same options. distinct by driver line; non-trivial = a forecast with at least one finite value")
 LEVEL_TEXT = ("Lean 4 theorems (all series, periods, window lengths - multiples of the period or not -, horizons in-sample and "
               "out-of-sample) that the model of NaiveForecaster / PolynomialTrendForecaster / the statsmodels adapter computes the textbook "
               "forecast of an independent specification; model tied to /repo by differential correspondence on every run")
@@ -746,6 +750,9 @@ def oracle(c, out):
                 names = "+".join(k for k, v in exp if got.get(k) != _cv(v)) or "extra"
                 fails.append(("adapter:%s:%s-options:%s" % (c["cls"], flag, names),
                               "statsmodels %s received %s (%s)" % ("constructor" if flag == "ctor" else "fit", ", ".join(diff), _opts_line(c))))
+        if any(":ctor-options:" in k for k, _ in fails):
+            # a rejection by statsmodels that follows from wrong options is reported once, by its cause
+            fails = [(k, m) for k, m in fails if not k.endswith(":raises")]
     site = c["kind"] + (":" + c["strategy"] if c["kind"] == "naive" else "")
     if flags.get("again") == "F":
         fails.append((site + ":second-predict-differs", "a second predict(fh) on the same fitted object does not repeat the first answer (%s)" % _desc(c)))
